@@ -22,6 +22,7 @@ from vf.gen import rng_for
 from vf.oracle import daily_formula as F
 
 ID = "C01"
+TECHNIQUE = 'runtime monitoring: differential monitor at the API boundary (predict before vs after to_json/from_json, bit-exact, one and two generations, re-used model objects) + independent formula oracle evaluated from the JSON document alone on every predicted row'
 LEVEL = "exploration"
 CASE_TIMEOUT = 3000
 RULE = ("parameter-built daily/billing models: 7 shapes x every exact-cover split string x coefficient draws inside the final-fit box, predicted on "
